@@ -217,3 +217,13 @@ Example C05_sync_nonvacuous :
   (exists s, reach s /\ holder s = None /\ st s = init_word /\ runs s 5 = 1 /\ runs s 6 = 1 /\ runs s 7 = 1 /\
              ist s 6 = IFin /\ ist s 7 = IFin /\ pcs s 6 = Idle /\ pcs s 7 = Idle /\ lst s = []).
 Proof. exact nonvacuous. Qed.
+
+(* ... and the remote run (SyncWait_example.schedR1, schedR2): a worker pops the context of a dispatch_async_and_wait
+   caller, runs the item itself while the caller sleeps, then signals it; the caller returns with its item finished, run
+   once, by the drainer *)
+Example C05_sync_nonvacuous_remote :
+  (exists s, reach s /\ holder s = Some 6 /\ running s = Some 6 /\ pcs s 6 = W_incall OWN 0 7 /\ slp s 7 = Sleeping /\
+             ph s 7 = PhPopR 6 /\ runs s 7 = 1 /\ ist s 7 = IRun) /\
+  (exists s, reach s /\ holder s = None /\ st s = init_word /\ runs s 7 = 1 /\ ist s 7 = IFin /\ remote s 7 = true /\
+             pcs s 7 = Idle /\ pcs s 6 = Idle /\ early_ret s = false).
+Proof. exact nonvacuous_remote. Qed.
